@@ -466,7 +466,7 @@ def streams_for(prop, seed, tier, boost=1):
         add('never-indexed-utf8', genmod.never_indexed_utf8_stream())
         add('limits-interleaved', genmod.limit_interleaved_stream())
         add('failed-then-fresh', genmod.failed_then_fresh_stream())
-        add('deccat-warnings-as-errors', G('deccat').dec_catalogue(), {'env': {'HPACK_VERIF_WARNINGS': 'error', 'PYTHONDEVMODE': '1'}})
+        add('deccat-warnings-as-errors', G('deccat').dec_catalogue(), {'env': {'HPACK_VERIF_WARNINGS': 'error', 'PYTHONDEVMODE': '1', '_PYFLAGS': '-bb'}})
         add('format-chars', genmod.format_chars_stream())
         add('format-chars-debuglog', genmod.with_debug_log(genmod.format_chars_stream(start_id=51000)))
         add('hdec-in-block', ['dnew 1'] + ['ddec 1 1 ' + genmod.hx(bytes([0x00, 0x80 | (len(o.split()[1]) // 2)]) + bytes.fromhex(o.split()[1]) + b'\x00')
@@ -636,7 +636,7 @@ def streams_for(prop, seed, tier, boost=1):
           'C08': lambda: G('oodc').dec_stream(n_conn=12 * k, mal=0.2), 'C17': lambda: G('oodc').dec_stream(n_conn=8 * k, mal=0.2)}
     if prop not in ('C16', 'C18'):
         add('no-asserts-no-docstrings-warnings-as-errors', oo.get(prop, lambda: G('ooc').conn_stream(n_conn=8 * k))(),
-            {'env': {'PYTHONOPTIMIZE': '2', 'HPACK_VERIF_WARNINGS': 'error'}})
+            {'env': {'PYTHONOPTIMIZE': '2', 'HPACK_VERIF_WARNINGS': 'error', '_PYFLAGS': '-bb'}})
     if prop not in ('C11', 'C12', 'C13', 'C16'):
         sub = {'C06': lambda: G('subt').table_stream(n_tables=6 * k, n_ops=25), 'C14': lambda: G('subt').table_stream(n_tables=6 * k, n_ops=25),
                'C02': lambda: G('subd').dec_stream(n_conn=15 * k, mal=0.2), 'C04': lambda: G('subd').dec_stream(n_conn=15 * k, mal=0.5),
@@ -910,7 +910,7 @@ def write_replay(prop, seed, tier, kind, payload):
 
 
 def judged_fail_on(prop, ops, ctx=None, sig=None):
-    impl = runner.run_impl(ops)
+    impl = runner.run_impl(ops, extra_env=(ctx or {}).get('env'))        # the interpreter options / environment of the stream it came from
     J = judges.JUDGES.get(prop)
     c = dict(ctx or {})
     if any(r == 'bad-id' or r == 'bad-op' for r in impl):
